@@ -433,10 +433,23 @@ func reFindAllStringSubmatch(in *Interp, fr *frame, fn *ssa.Function, a []Value)
 		}
 		return Slice{B: out, L: len(out)}, true
 	}
+	out := in.portFindAll(fr, r, s, n)
+	if out == nil {
+		return Slice{}, true
+	}
+	vals := make([]Value, len(out))
+	for i, m := range out {
+		vals[i] = in.strSliceValue(m)
+	}
+	return Slice{B: vals, L: len(vals)}, true
+}
+
+// portFindAll is regexp.(*Regexp).FindAllStringSubmatch on the port.
+func (in *Interp) portFindAll(fr *frame, r *reNative, s Str, n int) [][]Str {
 	if n < 0 {
 		n = len(s.S) + 1
 	}
-	var out []Value
+	var out [][]Str
 	end := len(s.S)
 	for pos, i, prevMatchEnd := 0, 0, -1; i < n && pos <= end; {
 		m := in.reExec(fr, r, s, pos, r.numCap)
@@ -459,14 +472,11 @@ func reFindAllStringSubmatch(in *Interp, fr *frame, fn *ssa.Function, a []Value)
 		}
 		prevMatchEnd = m[1]
 		if accept {
-			out = append(out, in.strSliceValue(in.submatchStrings(s, m)))
+			out = append(out, in.submatchStrings(s, m))
 			i++
 		}
 	}
-	if out == nil {
-		return Slice{}, true
-	}
-	return Slice{B: out, L: len(out)}, true
+	return out
 }
 
 func (in *Interp) reReplaceAll(fr *frame, r *reNative, src Str, repl func(match Str) Str) Str {
